@@ -199,7 +199,8 @@ def _cp(draw, ids, in_subtest):
   return n
 
 
-def _nodes(draw, ids, budget, depth, in_subtest, in_td, strict, maxdepth, min_size=0):
+def _nodes(draw, ids, budget, depth, in_subtest, in_td, strict, maxdepth, min_size=0, cfg=None):
+  cfg = cfg or {}
   out = []
   n = draw(st.integers(min_size, 4 if depth else 6))
   for _ in range(n):
@@ -207,37 +208,40 @@ def _nodes(draw, ids, budget, depth, in_subtest, in_td, strict, maxdepth, min_si
       break
     budget[0] -= 1
     kinds = [('phase', 11), ('cp', 2)]
-    if depth < maxdepth:
+    if cfg.get('leaf_only'):
+      kinds = [('phase', 1)]
+    elif depth < maxdepth:
       kinds += [('seq', 1), ('branch', 2)]
       if not (strict and in_td):
-        kinds += [('subtest', 2), ('group', 3)]
+        kinds += [('subtest', 2), ('group', cfg.get('group_weight', 3))]
     k = _weighted(draw, kinds)
     if k == 'phase':
       out.append(_phase(draw, ids, in_subtest, strict))
     elif k == 'cp':
       out.append(_cp(draw, ids, in_subtest))
     elif k == 'seq':
-      out.append({'t': 'seq', 'c': _nodes(draw, ids, budget, depth + 1, in_subtest, in_td, strict, maxdepth)})
+      out.append({'t': 'seq', 'c': _nodes(draw, ids, budget, depth + 1, in_subtest, in_td, strict, maxdepth, cfg=cfg)})
     elif k == 'branch':
       out.append({'t': 'branch', 'id': next(ids), 'cond': _cond(draw),
-                  'c': _nodes(draw, ids, budget, depth + 1, in_subtest, in_td, strict, maxdepth)})
+                  'c': _nodes(draw, ids, budget, depth + 1, in_subtest, in_td, strict, maxdepth, cfg=cfg)})
     elif k == 'subtest':
       out.append({'t': 'subtest', 'id': next(ids),
-                  'c': _nodes(draw, ids, budget, depth + 1, True, in_td, strict, maxdepth, min_size=1)})
+                  'c': _nodes(draw, ids, budget, depth + 1, True, in_td, strict, maxdepth, min_size=1, cfg=cfg)})
     else:
       g = {'t': 'group', 'id': next(ids)}
-      g['s'] = _nodes(draw, ids, budget, depth + 1, in_subtest, in_td, strict, maxdepth) if draw(st.booleans()) else []
-      g['m'] = _nodes(draw, ids, budget, depth + 1, in_subtest, in_td, strict, maxdepth)
-      g['td'] = _nodes(draw, ids, budget, depth + 1, in_subtest, True, strict, maxdepth, min_size=1) if draw(st.integers(0, 4)) else []
+      scfg = dict(cfg, leaf_only=True) if cfg.get('setup_leaf_only') else cfg
+      g['s'] = _nodes(draw, ids, budget, depth + 1, in_subtest, in_td, strict, maxdepth, cfg=scfg) if draw(st.booleans()) else []
+      g['m'] = _nodes(draw, ids, budget, depth + 1, in_subtest, in_td, strict, maxdepth, cfg=cfg)
+      g['td'] = _nodes(draw, ids, budget, depth + 1, in_subtest, True, strict, maxdepth, min_size=1, cfg=cfg) if draw(st.integers(0, 4)) else []
       out.append(g)
   return out
 
 
 @st.composite
-def programs(draw, strict=False, max_nodes=14, maxdepth=3, with_test_start=True, with_callbacks=False):
+def programs(draw, strict=False, max_nodes=14, maxdepth=3, with_test_start=True, with_callbacks=False, cfg=None):
   ids = itertools.count(1)
   budget = [draw(st.integers(1, max_nodes))]
-  nodes = _nodes(draw, ids, budget, 0, False, False, strict, maxdepth, min_size=0 if draw(st.integers(0, 19)) == 0 else 1)
+  nodes = _nodes(draw, ids, budget, 0, False, False, strict, maxdepth, min_size=0 if draw(st.integers(0, 19)) == 0 else 1, cfg=cfg)
   ts = None
   if with_test_start and draw(st.integers(0, 5)) == 0:
     ts = {'lambda': 1} if draw(st.integers(0, 2)) == 0 else _phase(draw, ids, False, strict, simple=True)
@@ -381,6 +385,8 @@ class Ctx(object):
     self.cancel = threading.Event()
     self.lock = threading.Lock()
     self.hooks = {}  # optional per-pid callables run inside the body (used by property modules)
+    self.serial = 0
+    self.plug_classes = []
 
   def next_inv(self, pid):
     with self.lock:
@@ -390,6 +396,11 @@ class Ctx(object):
 
   def log(self, *ev):
     self.events.append(ev)
+
+  def next_serial(self):
+    with self.lock:
+      self.serial += 1
+      return self.serial
 
   def calls(self):
     return [(e[1], e[2]) for e in self.events if e[0] == 'body']
@@ -402,6 +413,8 @@ def _mk_body(node, ctx, htf):
   def body(test, **plugs):
     inv = ctx.next_inv(pid)
     ctx.log('body', pid, inv)
+    if plugs:
+      ctx.log('plugs', pid, inv, sorted((a, getattr(type(pl), 'vf_index', -1), getattr(pl, 'serial', None)) for a, pl in plugs.items()))
     hook = ctx.hooks.get(pid)
     if hook is not None:
       hook(test, inv, plugs)
@@ -487,9 +500,46 @@ def build_phase(node, ctx, htf, plug_map=None):
     p = htf.measures(*[htf.Measurement(name).in_range(0, 10) for name in node['m']])(p)
   if node['d']:
     p = htf.diagnose(*[_mk_diag(d, ctx, htf, (pid, k), False) for k, d in enumerate(node['d'])])(p)
-  for argname, cls in (node.get('plugs') and plug_map and [(a, plug_map[c]) for a, c in node['plugs']] or []):
-    p = htf.plug(**{argname: cls})(p)
+  for spec in (node.get('plugs') or []):
+    argname, idx = spec[0], spec[1]
+    upd = spec[2] if len(spec) > 2 else True
+    p = htf.plugs.plug(update_kwargs=bool(upd), **{argname: plug_map[idx]})(p)
   return p
+
+
+class PlugBoom(Exception):
+  pass
+
+
+_UID = itertools.count(1)
+
+
+def make_plug_classes(specs, ctx, htf):
+  """specs: [{'ctor': 'ok'|'raise', 'td': 'ok'|'raise'|'hang', 'base': None|index}] -> list of fresh BasePlug subclasses."""
+  uid = next(_UID)
+  classes = []
+  for i, sp in enumerate(specs):
+    base = classes[sp['base']] if sp.get('base') is not None else htf.plugs.BasePlug
+
+    def __init__(self, i=i, sp=sp):
+      ctx.log('plug-ctor-enter', i)
+      if sp.get('ctor') == 'raise':
+        raise PlugBoom('ctor of plug %d' % i)
+      self.serial = ctx.next_serial()
+      ctx.log('plug-ctor-ok', i, self.serial)
+
+    def tearDown(self, i=i, sp=sp):
+      ctx.log('plug-td', i, getattr(self, 'serial', None))
+      if sp.get('td') == 'raise':
+        raise PlugBoom('tearDown of plug %d' % i)
+      if sp.get('td') == 'hang':
+        while not ctx.cancel.is_set():
+          time.sleep(0.0005)
+
+    cls = type('Plug%d_%d' % (i, uid), (base,), {'__init__': __init__, 'tearDown': tearDown, 'vf_index': i})
+    classes.append(cls)
+  ctx.plug_classes = classes
+  return classes
 
 
 def build_node(node, ctx, htf, plug_map=None):
@@ -519,6 +569,8 @@ def build_node(node, ctx, htf, plug_map=None):
 
 def build_test(prog, ctx, htf, plug_map=None):
   """Returns (test, test_start_arg)."""
+  if plug_map is None and prog.get('plugs'):
+    plug_map = make_plug_classes(prog['plugs'], ctx, htf)
   nodes = [build_node(n, ctx, htf, plug_map) for n in prog['nodes']]
   test = htf.Test(*nodes)
   o = prog['opts']
